@@ -47,11 +47,16 @@ type c08Packet struct {
 
 // c08Capture produces a genuine first packet with the real client transport (must run inside a bubble).
 func c08Capture(pub [32]byte, ws bool, browser string, skew time.Duration) ([]byte, Transport, error) {
+	return c08CaptureAt(pub, ws, browser, func() time.Time { return time.Now().Add(skew) })
+}
+
+// c08CaptureAt is c08Capture with an arbitrary client clock.
+func c08CaptureAt(pub [32]byte, ws bool, browser string, clientNow func() time.Time) ([]byte, Transport, error) {
 	cfg := vClientCfg{UID: vUIDb64([]byte("c08-bypass-user!")), Method: "shadowsocks", Enc: "plain", NumConn: 1, Browser: browser, Transport: "direct", ServerName: "www.example.com"}
 	if ws {
 		cfg.Transport = "cdn"
 	}
-	_, remote, auth, err := vMustProcess(cfg, pub, func() time.Time { return time.Now().Add(skew) })
+	_, remote, auth, err := vMustProcess(cfg, pub, clientNow)
 	if err != nil {
 		return nil, nil, err
 	}
@@ -159,9 +164,18 @@ func c08Inner(sc c08Scenario) (vk.Result, error) {
 	res := vk.Result{}
 	pv, pub := vStaticKeys()
 	var stop atomic.Bool
+	// a presentation can be armed to happen while the periodic clean-up is running: the clean-up consults the
+	// clock for every entry it looks at, which is where the harness slips the presentation in
+	var armed atomic.Pointer[func()]
 	now := func() time.Time {
 		if stop.Load() {
 			runtime.Goexit()
+		}
+		if f := armed.Load(); f != nil && calledFromCleaner() && armed.CompareAndSwap(f, nil) {
+			go (*f)()
+			for i := 0; i < 3000; i++ {
+				runtime.Gosched() // let the presenter reach the replay gate while the clean-up is still in progress
+			}
 		}
 		return time.Now()
 	}
@@ -177,6 +191,11 @@ func c08Inner(sc c08Scenario) (vk.Result, error) {
 		time.Sleep(13 * time.Hour)
 	}()
 	var pkts []*c08Packet
+	type duringRes struct {
+		idx int
+		err error
+	}
+	duringCh := make(chan duringRes, 4)
 	cleanerRuns := func(a, b time.Time) bool {
 		// the cleaner wakes every 12 h after start
 		ka := int64(a.Sub(t0) / (12 * time.Hour))
@@ -281,9 +300,50 @@ func c08Inner(sc c08Scenario) (vk.Result, error) {
 			res.Labels = append(res.Labels, "concurrent-presentations")
 		case "advance":
 			time.Sleep(time.Duration(op.Ms) * time.Millisecond)
+			synctest.Wait()
+			select {
+			case r := <-duringCh:
+				if r.err == nil {
+					pkts[r.idx].accepted++
+					lastAccept[r.idx] = time.Now()
+				}
+				res.NonTrivial = true
+				res.Labels = append(res.Labels, "presentation-during-cleanup")
+			default:
+			}
+		case "newDuringCleanup":
+			// a fresh genuine packet, not presented now: it will be presented for the first time while the next
+			// clean-up is running; later "again" ops replay it
+			first, tr, err := c08Capture(pub, op.WS, op.Sig, 0)
+			if err != nil {
+				return res, fmt.Errorf("harness: %v", err)
+			}
+			p := &c08Packet{first: first, transport: tr, created: time.Now(), ws: op.WS}
+			pkts = append(pkts, p)
+			idx := len(pkts) - 1
+			f := func() {
+				_, _, err := AuthFirstPacket(append([]byte(nil), p.first...), p.transport, sta)
+				duringCh <- duringRes{idx, err}
+			}
+			armed.Store(&f)
 		}
 	}
 	return res, nil
+}
+
+func calledFromCleaner() bool {
+	pcs := make([]uintptr, 16)
+	n := runtime.Callers(2, pcs)
+	frames := runtime.CallersFrames(pcs[:n])
+	for {
+		f, more := frames.Next()
+		if strings.Contains(f.Function, "UsedRandomCleaner") {
+			return true
+		}
+		if !more {
+			return false
+		}
+	}
 }
 
 func c08Gen(rt *rapid.T) c08Scenario {
@@ -295,6 +355,13 @@ func c08Gen(rt *rapid.T) c08Scenario {
 		k := rapid.IntRange(1, 3).Draw(rt, "k12")
 		sc.Ops = []c08Op{{K: "advance", Ms: int64(k)*12*3600*1000 - int64(rapid.IntRange(1, 350).Draw(rt, "before"))*1000}, {K: "new", Sig: "firefox", WS: rapid.IntRange(0, 4).Draw(rt, "ws0") == 0,
 			Skew: rapid.SampledFrom([]int64{0, 178000, 170000, 90000, -90000}).Draw(rt, "skew0")}}
+	}
+	if rapid.IntRange(0, 3).Draw(rt, "during") == 0 {
+		// a handshake that arrives while a clean-up is in progress, replayed shortly afterwards
+		k := rapid.IntRange(1, 2).Draw(rt, "dk12")
+		sc.Ops = []c08Op{{K: "new", Sig: "firefox"}, {K: "advance", Ms: int64(k)*12*3600*1000 - int64(rapid.IntRange(1, 100).Draw(rt, "dbefore"))*1000 - 1000},
+			{K: "new", Sig: "safari"}, {K: "newDuringCleanup", Sig: "firefox", WS: rapid.IntRange(0, 4).Draw(rt, "dws") == 0},
+			{K: "advance", Ms: int64(rapid.IntRange(101, 150).Draw(rt, "dadv")) * 1000}, {K: "again", I: 2}}
 	}
 	for i := 0; i < n; i++ {
 		k := rapid.IntRange(0, 99).Draw(rt, "kind")
